@@ -156,6 +156,32 @@ fn space_case<T: Idx>(rep: &mut Report, orc: &mut Oracle, rng: &mut Rng, m: &Moc
       rep.evaluations += 1;
       rep.count(if indirect { "space:split-8" } else { "space:split-4" });
       let conn = if indirect { 8 } else { 4 };
+      // the flood fill as written (Model/FloodFill.v): same components, in the same order, each with
+      // the same cells in the same order
+      {
+        let cells = catch(|| {
+          mm.split_into_joint_mocs(indirect)
+            .into_iter()
+            .map(|cm| cm.into_cell_moc_iter().map(|c| (c.depth, c.idx.to_u64())).collect::<Vec<(u8, u64)>>())
+            .collect::<Vec<_>>()
+        });
+        if let Ok(cs) = cells {
+          let line = format!("SPLITF {} {}", conn, base);
+          let model = orc.ask(&line);
+          let mut got = format!("OK {}", cs.len());
+          for c in &cs {
+            got.push_str(&format!(" {}", c.len()));
+            for (d, i) in c {
+              got.push_str(&format!(" {} {}", d, i));
+            }
+          }
+          rep.evaluations += 1;
+          rep.count("space:split-floodfill-model");
+          if got != model {
+            rep.corr_break("split_into_joint_mocs differs from the model of its flood fill (components, their order, their cells)", &line, &got.chars().take(400).collect::<String>(), &model.chars().take(400).collect::<String>(), "src/moc/range/mod.rs split_into_joint_mocs_gen == Model/FloodFill.v ff_split");
+          }
+        }
+      }
       match parts {
         Ok(ps) => {
           let line = format!("SPLIT {} {} {} {}", conn, base, ps.len(), ps.iter().map(|p| ranges_str(p)).collect::<Vec<_>>().join(" "));
